@@ -1,7 +1,7 @@
 """C10 — H-infinity regularised fits report a valid bound on the true gain."""
 import json
 import numpy as np
-from .. import common, driver, known, lmi
+from .. import common, driver, known, lmi, altern
 from . import _dp
 import pykoop
 import pykoop.lmi_regressors as L
@@ -104,9 +104,22 @@ def run(res, tier):
                         'norm and the P^-1 congruence are not machine-checked)',
                         'CVXOPT/PICOS feasibility when "optimal" is an oracle contract']
 
-    class B:
-        meta = {}
-    _dp.conclude(res, PID, proved, B(), [], [], bad, 'Props/C10.v (time-domain bounded-real lemma) + per-fit gain checks')
+    # M3(b): the alternation loop driven by a scripted solver oracle vs coq/Altern.v (compared inside Coq)
+    classes = [(L.LmiEdmdHinfReg, {}, 1), (L.LmiDmdcHinfReg, {}, 1)]
+    batch, failed, errors, n_scr, s_scr, d_scr = altern.run_scripts(rng, classes, 40 if tier == 'quick' else 600, 'c10_altern')
+    res.coverage['programs'] = res.coverage.get('programs', 0) + n_scr
+    res.coverage['disagreements_checked'] = res.coverage.get('disagreements_checked', 0) + n_scr
+    res.coverage['evaluations'] = res.coverage.get('evaluations', 0) + n_scr
+    res.coverage['distinct_nontrivial'] = res.coverage.get('distinct_nontrivial', 0) + len(
+        {json.dumps(batch.meta[i][0]['script'], sort_keys=True) + batch.meta[i][0]['estimator'] for i in batch.meta})
+    res.coverage['scripted_solver_runs'] = dict(runs=n_scr, exit_reasons=d_scr, model_vs_impl_disagreements=len(failed),
+                                                coq_case_errors=len(errors))
+    res.coverage['samples'] = list(res.coverage.get('samples', [])) + s_scr[:1]
+    res.coverage['rule'] += (' Scripted solver (M3b): random scripts of optimal / non-optimal answers to the sub-problems A_k, B_k with '
+                             'tagged values, integer objectives, a polite-stop request at a random check, max_iter 1..5, atol in '
+                             '{0,1,3}; the returned tags of U (and gamma_), P_, objective_log_, n_iter_, the class of stop_reason_ and '
+                             'the arguments each sub-problem was built from are compared inside Coq with Altern.fit on the same script.')
+    _dp.conclude(res, PID, proved, batch, failed, errors, bad, 'Props/C10.v (time-domain bounded-real lemma) + per-fit gain checks + alternation-loop correspondence (Altern.v)')
 
 
 def replay(path):
